@@ -28,15 +28,16 @@ Section KeysExt.
   Variables k1 k2 : list str.
   Hypothesis same_members : forall p, has_key k1 p = has_key k2 p.
 
-  Lemma scan_deps_keys_ext : forall fuel cur,
-    scan_deps apropos k1 fuel cur = scan_deps apropos k2 fuel cur.
+  Lemma scan_deps_keys_ext : forall fuel orig cur,
+    scan_deps apropos k1 fuel orig cur = scan_deps apropos k2 fuel orig cur.
   Proof.
-    induction fuel as [|f IH]; intros cur; simpl; [reflexivity|].
+    induction fuel as [|f IH]; intros orig cur; simpl; [reflexivity|].
     apply fold_left_ext. intros acc ic.
     destruct (apropos (if fst ic then snd ic ++ [slash] else snd ic)) as [m|]; [|reflexivity].
     apply fold_left_ext. intros acc' e.
     destruct acc' as [l|]; [|reflexivity].
     destruct (rel2abs e (snd ic)) as [t|]; [|reflexivity].
+    destruct (str_eqb t orig || str_eqb t cur); [reflexivity|].
     rewrite same_members, IH. reflexivity.
   Qed.
 End KeysExt.
@@ -68,11 +69,11 @@ Section MapKeys.
   Qed.
 
   (* the edges of a file depend only on the addresses present, not on their positions *)
-  Theorem same_edges : forall apropos fuel (ms1 ms2 : list (message A)) cur,
+  Theorem same_edges : forall apropos fuel (ms1 ms2 : list (message A)) orig cur,
     Permutation ms1 ms2 ->
-    scan_deps apropos (map_keys A ms1) fuel cur = scan_deps apropos (map_keys A ms2) fuel cur.
+    scan_deps apropos (map_keys A ms1) fuel orig cur = scan_deps apropos (map_keys A ms2) fuel orig cur.
   Proof.
-    intros apropos fuel ms1 ms2 cur H. apply scan_deps_keys_ext.
+    intros apropos fuel ms1 ms2 orig cur H. apply scan_deps_keys_ext.
     intros p. rewrite !has_key_map_keys. apply existsb_perm. apply Permutation_map. assumption.
   Qed.
 End MapKeys.
@@ -109,9 +110,12 @@ Section Complete.
   Variable keys : list str.
 
   (* what one entry contributes *)
+  Variables orig start : str.      (* the message's address; the address this scan started from *)
+
   Definition entry_deps (f : nat) (c e : str) : option (list str) :=
     match rel2abs e c with
-    | Some t => if has_key keys t then Some [t] else scan_deps apropos keys f t
+    | Some t => if str_eqb t orig || str_eqb t start then Some []
+                else if has_key keys t then Some [t] else scan_deps apropos keys f orig t
     | None => None
     end.
 
@@ -121,15 +125,16 @@ Section Complete.
     | Some m => fold_left (acc_step str str (entry_deps f (snd ic))) (dep_values m) acc
     end.
 
-  Lemma scan_deps_unfold : forall f cur,
-    scan_deps apropos keys (S f) cur = fold_left (level_step f) (flagged (ancestors cur)) (Some []).
+  Lemma scan_deps_unfold : forall f,
+    scan_deps apropos keys (S f) orig start = fold_left (level_step f) (flagged (ancestors start)) (Some []).
   Proof.
-    intros f cur. simpl. apply fold_left_ext. intros acc ic. unfold level_step.
+    intros f. simpl. apply fold_left_ext. intros acc ic. unfold level_step.
     destruct (apropos (if fst ic then snd ic ++ [slash] else snd ic)) as [m|]; [|reflexivity].
     apply fold_left_ext. intros acc' e. unfold acc_step, entry_deps.
     destruct acc' as [l|]; destruct (rel2abs e (snd ic)) as [t|]; try reflexivity.
+    destruct (str_eqb t orig || str_eqb t start); [rewrite app_nil_r; reflexivity|].
     destruct (has_key keys t); [reflexivity|].
-    destruct (scan_deps apropos keys f t); reflexivity.
+    destruct (scan_deps apropos keys f orig t); reflexivity.
   Qed.
 
   Lemma level_none : forall f ics, fold_left (level_step f) ics None = None.
@@ -166,19 +171,23 @@ Section Complete.
 
   (* every reference (of the port or of one of its parents) to an address that has
      a line is among the addresses the message is made to wait for *)
-  Theorem scan_complete : forall fuel cur r ic m e t,
-    scan_deps apropos keys fuel cur = Some r ->
-    In ic (flagged (ancestors cur)) ->
+  Theorem scan_complete : forall fuel r ic m e t,
+    scan_deps apropos keys fuel orig start = Some r ->
+    In ic (flagged (ancestors start)) ->
     apropos (if fst ic then snd ic ++ [slash] else snd ic) = Some m ->
     In e (dep_values m) -> rel2abs e (snd ic) = Some t -> has_key keys t = true ->
+    t <> orig -> t <> start ->
     In t r.
   Proof.
-    intros fuel cur r ic m e t H Hic Hm He Hr Hk.
+    intros fuel r ic m e t H Hic Hm He Hr Hk Hno Hns.
     destruct fuel as [|f]; [discriminate|].
     rewrite scan_deps_unfold in H.
     destruct (level_some _ _ _ _ H) as [_ Hx].
     destruct (Hx ic m e Hic Hm He) as [l' [Hl' Hinc]].
-    unfold entry_deps in Hl'. rewrite Hr, Hk in Hl'. inversion Hl'; subst.
+    unfold entry_deps in Hl'. rewrite Hr in Hl'.
+    assert (E1 : str_eqb t orig = false) by (destruct (str_eqb t orig) eqn:E; [apply streqb_true in E; contradiction | reflexivity]).
+    assert (E2 : str_eqb t start = false) by (destruct (str_eqb t start) eqn:E; [apply streqb_true in E; contradiction | reflexivity]).
+    rewrite E1, E2, Hk in Hl'. simpl in Hl'. inversion Hl'; subst.
     apply Hinc. left. reflexivity.
   Qed.
 End Complete.
@@ -189,7 +198,7 @@ Section Pushed.
   Variable fuel : nat.
 
   Definition push_of (ms : list (message A)) (k : str) : option (list (nat * nat)) :=
-    match scan_deps apropos (map_keys A ms) fuel k, index_of A k ms with
+    match scan_deps apropos (map_keys A ms) fuel k k, index_of A k ms with
     | Some ds, Some o => Some (flat_map (fun d => match index_of A d ms with
                                                   | Some i => [(i, o)]
                                                   | None => []
@@ -202,7 +211,7 @@ Section Pushed.
   Proof.
     intros ms. unfold pushes. apply fold_left_ext. intros acc k. unfold acc_step, push_of.
     destruct acc as [l|]; [|reflexivity].
-    destruct (scan_deps apropos (map_keys A ms) fuel k); [|reflexivity].
+    destruct (scan_deps apropos (map_keys A ms) fuel k k); [|reflexivity].
     destruct (index_of A k ms); reflexivity.
   Qed.
 
@@ -213,15 +222,15 @@ Section Pushed.
     In ic (flagged (ancestors k)) ->
     apropos (if fst ic then snd ic ++ [slash] else snd ic) = Some m ->
     In e (dep_values m) -> rel2abs e (snd ic) = Some t ->
-    index_of A t ms = Some i -> has_key (map_keys A ms) t = true ->
+    index_of A t ms = Some i -> has_key (map_keys A ms) t = true -> t <> k ->
     In (i, o) ps.
   Proof.
-    intros ms ps k o ic m e t i Hp Hk Ho Hic Hm He Hr Hi Hkey.
+    intros ms ps k o ic m e t i Hp Hk Ho Hic Hm He Hr Hi Hkey Hne.
     rewrite pushes_unfold in Hp.
     destruct (acc_some _ _ _ _ _ _ Hp) as [_ Hx].
     destruct (Hx k Hk) as [l' [Hl' Hinc]].
     unfold push_of in Hl'.
-    destruct (scan_deps apropos (map_keys A ms) fuel k) as [ds|] eqn:Es; [|discriminate].
+    destruct (scan_deps apropos (map_keys A ms) fuel k k) as [ds|] eqn:Es; [|discriminate].
     rewrite Ho in Hl'. inversion Hl'; subst l'.
     apply Hinc. apply in_flat_map. exists t. split.
     - eapply scan_complete; eassumption.
